@@ -297,6 +297,40 @@ def run_job(args):
     return version, pending, viol, stats
 
 
+def queued_behind_orphan(version):
+    """A decodable frame with the pending command's sequence number but another frame ID abandons that command; a command
+    issued right afterwards has to wait for the abandoned one to time out, is then sent, and must complete normally on its own
+    reply.  (Its own time limit may only start once it has been sent.)"""
+    ctx = Ctx(version, "getEui64")
+    try:
+        cid_other = ctx.cls.COMMANDS["getNodeId"][0]
+        ctx.ezsp.frame_received(ezspenv.enc_response_hdr(version, ctx.pseq, cid_other) + bytes([0x11, 0x22]))
+        ctx.loop.settle()
+        n_sent = len(ctx.gw.sent)
+        task_b = ctx.loop.create_task(ctx.ezsp._command("getNodeId"))
+        ctx.loop.settle()
+        for _ in range(8):
+            if len(ctx.gw.sent) > n_sent or task_b.done():
+                break
+            ctx.loop.fire_timers()
+            ctx.loop.settle()
+        if task_b.done():
+            res = "cancelled" if task_b.cancelled() else repr(task_b.exception() or task_b.result())
+            return f"afterwards: a command issued while an abandoned command still held the send slot ended ({res}) before it was ever sent"
+        if len(ctx.gw.sent) <= n_sent:
+            return "afterwards: a command issued behind an abandoned command was never sent"
+        seq = ctx.gw.sent[-1][1][0]
+        ctx.ezsp.frame_received(ezspenv.enc_response_hdr(version, seq, cid_other) + bytes([0x34, 0x12]))
+        ctx.loop.settle()
+        ok = task_b.done() and not task_b.cancelled() and task_b.exception() is None and list(task_b.result()) == [0x1234]
+        if not task_b.done():
+            task_b.cancel()
+            ctx.loop.settle()
+        return None if ok else "afterwards: a command issued behind an abandoned command did not complete normally on its own reply"
+    finally:
+        ctx.close()
+
+
 def isolation_cases(rep):
     """A pending command belongs to one protocol handler: a frame given to *another* EZSP object in the same process, or to the
     handler that replaced it after a version switch, never completes it -- whatever sequence number and frame ID it carries
@@ -354,6 +388,11 @@ def isolation_cases(rep):
 def main(tier: str) -> int:
     rep = report.Report("C08", tier, "exploration")
     n_iso = isolation_cases(rep)
+    for v in ezspenv.VERSIONS:
+        m = queued_behind_orphan(v)
+        n_iso += 1
+        if m:
+            rep.add_violation("C08|afterwards|queued-behind-abandoned", f"v{v}: {m}", {"world": "c08", "kind": "queued", "version": v})
     pend = PENDING if tier != "quick" else [None, "getEui64", "getValue"]
     jobs = [(v, p, tier) for v in ezspenv.VERSIONS for p in pend]
     results = list(explore.pool().imap_unordered(run_job, jobs, chunksize=1))
@@ -391,6 +430,10 @@ def main(tier: str) -> int:
 
 
 def replay(data) -> int:
+    if data.get("kind") == "queued":
+        m = queued_behind_orphan(data["version"])
+        print(m)
+        return 1 if m else 0
     if data.get("kind") == "isolation":
         rep = report.Report("C08", "quick", "exploration")
         isolation_cases(rep)
